@@ -20,7 +20,8 @@ THEOREMS = [
 
 PRE = ("(define 'marker 'still-here \"\") "
        "(defun spin (n) \"\" (spin (add n 1))) "
-       "(defun stubborn (n) \"\" (block (try (car 5) (catch-all (lambda (e) 'ignored))) (stubborn (add n 1)))) ")
+       "(defun stubborn (n) \"\" (block (try (car 5) (catch-all (lambda (e) 'ignored))) (stubborn (add n 1)))) "
+       "(defun lazy (n) \"\" (block (try (car 5)) (lazy (add n 1)))) ")
 AFTER = " (list 'alive (add 1 2) marker (length (range 5)))"
 BODIES = {
     "terminating": "(length (map (lambda (x) (add x 1)) (range 30)))",
@@ -28,7 +29,11 @@ BODIES = {
     "printing-loop": "(infinite-loop 0)",
     "through-catch-all": "(stubborn 0)",
     "inside-trap": "(eval (trap (spin 0) (list 'trapped (. *trapped-signal* 'kind))))",
+    # traps whose handler is the empty list (try without catchers, make-trap with nil, a literal () handler)
+    "through-empty-try": "(lazy 0)",
+    "inside-empty-trap": "(block (eval (trap (spin 0) ())) (eval (make-trap '(spin 0) nil)) (try (spin 0)) (spin 0))",
 }
+SWALLOWS_INTERRUPT = ("through-catch-all", "through-empty-try", "inside-empty-trap")
 
 def run(tier, seed):
     rep = Report(PID, tier, seed)
@@ -45,7 +50,7 @@ def run(tier, seed):
     for name, body in BODIES.items():
         for k in ks if name != "terminating" else [k for k in ks if k < 400]:
             for cmd in ("INTERRUPT", "ABORT"):
-                if name == "through-catch-all" and cmd == "INTERRUPT":
+                if name in SWALLOWS_INTERRUPT and cmd == "INTERRUPT":
                     umb = [(P + k, "INTERRUPT"), (P + k + 400 + rng.below(50), "ABORT")]   # the loop may catch the interrupt: end it with an abort later
                 else:
                     umb = [(P + k, cmd)]
@@ -74,7 +79,9 @@ def run(tier, seed):
         if "abort" in kinds: stopped["ABORT"] += 1
         if any(x[0] == "sig" and "105.110.116.101.114.114.117.112.116.101.100" in x[1] for x in res) or any("116.114.97.112.112.101.100" in x[1] for x in res if x[0] == "ok"):
             stopped["INTERRUPT"] += 1
-        if c["what"] in ("tail-loop", "printing-loop") and c["cmd"] == "ABORT" and "abort" not in kinds:
+        # (an INTERRUPT that arrives outside the swallowing trap ends the evaluation itself: the later ABORT is then never polled)
+        ended_by_interrupt = any(x[0] == "sig" and "105.110.116.101.114.114.117.112.116.101.100" in x[1] for x in res)
+        if c["what"] != "terminating" and any(u[1] == "ABORT" for u in c["umb"]) and "abort" not in kinds and not (c["cmd"] == "INTERRUPT" and ended_by_interrupt):
             rep.violation(f"ABORT before poll {c['k']} did not end the non-terminating evaluation", {"program": c["text"], "umb": c["umb"], "observed": ps.answers[i][:300]})
     # blocking primitives, on the binary with a helper thread
     blocked = [
@@ -133,7 +140,7 @@ def run(tier, seed):
     rep.coverage.update({"stopped": stopped, "poll_indices": [min(ks), max(ks)], "program_shapes": list(BODIES), "blocking_probes": len(blocked), "exhaustive": False})
     rep.assumptions = ["mpsc delivers a sent command to the next try_recv / recv of the worker", "a command is 'sent at instant t' = it is in the channel before the first poll after t"]
     return rep.finish("make -C coq Properties/C19.vo && coqc <pinned statements>", TRUSTED_BASE_COMMON + ["axioms: none"],
-                      "for each of 5 program shapes (terminating, tail loop, printing loop, loop through catch-all traps, loop inside a trap) x {INTERRUPT, ABORT} x poll index k (1..59 and random up to 3000; thorough: every k up to 1500), followed by a usability probe in the same interpreter; 6 threaded probes of the blocking primitives; every (shape, command, k) is distinct")
+                      "for each of 7 program shapes (terminating, tail loop, printing loop, loop through catch-all traps, loop inside a trap, loop through a try without catchers, loop inside traps with an empty handler) x {INTERRUPT, ABORT} x poll index k (1..59 and random up to 3000; thorough: every k up to 1500), followed by a usability probe in the same interpreter; 6 threaded probes of the blocking primitives; every (shape, command, k) is distinct")
 
 def replay(path):
     return generic_replay(path)
